@@ -1,8 +1,12 @@
 (* C16 — the attachment completion report lists exactly the missing byte ranges.
    Only statements here; every proof is `exact <lemma of Proofs/Ranges_proofs>`.
    [miss_segments size cur recs] models Package.StatisticalMissSegments (uint32 arithmetic
-   included); [recs] is Package.OffsetRecord, CurrentSize = sum_len recs is the invariant
-   of the (repaired) chunk accounting, proved for the upload model in Props/C15. *)
+   included); [recs] is Package.OffsetRecord.  The two hypotheses of the theorems below - the recorded chunks are
+   [chunks_ok] and CurrentSize = sum_len recs - are PROVED for every event of every upload of the connection model in
+   Props/C15.v (C15_recorded_chunks_ok), and C15_1212_reply_exact shows that the retransmit list held after a 0x1212
+   IS [miss_segments] of the recorded chunks: composed with C16_exact that is "the completion response lists exactly
+   the missing ranges" on the socket path.  Zero-length chunks (legal on the wire, accepted by the server) are outside
+   [chunks_ok]: for them the list is not maximal - recorded as finding C15/zero-length-chunk. *)
 From JT.Base Require Import Prelude.
 From JT.Model Require Import Frame Ranges.
 From JT.Proofs Require Import Ranges_proofs.
